@@ -1,4 +1,4 @@
-from typing import Optional, Tuple
+from typing import Optional
 
 import libcst as cst
 from libcst.codemod import CodemodContext, ContextAwareVisitor
@@ -8,6 +8,7 @@ from codemodder.codemods.libcst_transformer import (
     LibcstResultTransformer,
     LibcstTransformerPipeline,
 )
+from codemodder.codemods.utils import ReplaceNodes
 from codemodder.codemods.utils_mixin import NameAndAncestorResolutionMixin
 from codemodder.file_context import FileContext
 from codemodder.result import Result
@@ -28,10 +29,10 @@ class FlaskJsonResponseTypeTransformer(
             self.context, file_context=self.file_context, results=self.results
         )
         tree.visit(visitor)
-        if visitor.node_and_replacement:
-            node, replacement = visitor.node_and_replacement
-            self.report_change(node)
-            return tree.deep_replace(node, replacement)
+        if visitor.nodes_and_replacements:
+            for node in visitor.nodes_and_replacements:
+                self.report_change(node)
+            return tree.visit(ReplaceNodes(visitor.nodes_and_replacements))
         return tree
 
 
@@ -47,7 +48,7 @@ class FlaskJsonResponseTypeVisitor(
         file_context: FileContext,
         results: list[Result] | None,
     ) -> None:
-        self.node_and_replacement: Optional[Tuple[cst.CSTNode, cst.CSTNode]] = None
+        self.nodes_and_replacements: dict[cst.CSTNode, cst.CSTNode] = {}
         self.file_context = file_context
         ContextAwareVisitor.__init__(self, context)
         UtilsMixin.__init__(
@@ -69,9 +70,8 @@ class FlaskJsonResponseTypeVisitor(
             if maybe_has_decorator:
                 # json.dumps(...)
                 if self._is_json_dumps_call(original_node.value):
-                    self.node_and_replacement = (
-                        original_node.value,
-                        self._fix_json_dumps(original_node.value),
+                    self.nodes_and_replacements[original_node.value] = self._fix_json_dumps(
+                        original_node.value
                     )
                 # make_response(...)
                 elif maybe_make_response := self._is_make_response_with_json_with_unset_ct(
@@ -81,22 +81,19 @@ class FlaskJsonResponseTypeVisitor(
                         maybe_make_response
                     ):
                         if not self._has_content_type_key(maybe_dict):
-                            self.node_and_replacement = (
-                                maybe_dict,
-                                self._fix_dict(maybe_dict),
+                            self.nodes_and_replacements[maybe_dict] = self._fix_dict(
+                                maybe_dict
                             )
                     else:
                         first_arg = maybe_make_response.args[0].value
                         match first_arg:
                             case cst.Tuple():
-                                self.node_and_replacement = (
-                                    first_arg,
-                                    self._fix_tuple(first_arg),
+                                self.nodes_and_replacements[first_arg] = self._fix_tuple(
+                                    first_arg
                                 )
                             case _:
-                                self.node_and_replacement = (
-                                    maybe_make_response,
-                                    self._fix_make_response(maybe_make_response),
+                                self.nodes_and_replacements[maybe_make_response] = self._fix_make_response(
+                                    maybe_make_response
                                 )
 
                 # return (...,...)
@@ -105,14 +102,12 @@ class FlaskJsonResponseTypeVisitor(
                 ):
                     if maybe_dict := self._has_dict_with_headers(maybe_tuple):
                         if not self._has_content_type_key(maybe_dict):
-                            self.node_and_replacement = (
-                                maybe_dict,
-                                self._fix_dict(maybe_dict),
+                            self.nodes_and_replacements[maybe_dict] = self._fix_dict(
+                                maybe_dict
                             )
                     else:
-                        self.node_and_replacement = (
-                            maybe_tuple,
-                            self._fix_tuple(maybe_tuple),
+                        self.nodes_and_replacements[maybe_tuple] = self._fix_tuple(
+                            maybe_tuple
                         )
 
     def _is_tuple_with_json_string_response(
